@@ -1,8 +1,162 @@
 //! further replay cases (added per property as contracts land)
-use crate::Rng;
+use crate::{fail, Rng};
+use std::panic::{catch_unwind, AssertUnwindSafe};
+use yamaquasi::Uint;
 
-pub fn run(case: &str, _rng: &mut Rng, _iters: u64) -> bool {
-    match case {
-        _ => false,
+fn is_prime_td(n: u64) -> bool {
+    if n < 2 {
+        return false;
     }
+    let mut d = 2u64;
+    while d * d <= n {
+        if n % d == 0 {
+            return false;
+        }
+        d += 1;
+    }
+    true
+}
+
+/// run `f` in a helper thread with a deadline: Some(v) or None on timeout
+fn with_deadline<T: Send + 'static>(ms: u64, f: impl FnOnce() -> T + Send + 'static) -> Option<T> {
+    let (tx, rx) = std::sync::mpsc::channel();
+    std::thread::spawn(move || {
+        let _ = tx.send(f());
+    });
+    rx.recv_timeout(std::time::Duration::from_millis(ms)).ok()
+}
+
+/// isprime64 against trial division (small n, structured values) and the published psi_k / threshold neighbours
+fn isprime64(rng: &mut Rng, iters: u64) {
+    // F1 regression: even numbers >= 200 must answer (false) and not hang
+    for p in [200u64, 1000, 1 << 20, (1 << 40) + 2, u64::MAX - 1] {
+        match with_deadline(2000, move || yamaquasi::isprime64(p)) {
+            None => fail("isprime64", format!("isprime64({p}) does not return")),
+            Some(true) => fail("isprime64", format!("isprime64({p}) = true")),
+            _ => {}
+        }
+    }
+    // strong pseudoprimes: psi_1..psi_12 (those below 2^64) and classic composites
+    let comps: [u64; 14] = [
+        2047, 1373653, 25326001, 3215031751, 2152302898747, 3474749660383, 341550071728321, 3825123056546413051,
+        318665857834031151 /* not psi, composite filler */, 561, 1105, 1729, 4759123141, 1122004669633,
+    ];
+    for c in comps {
+        if !is_prime_td_big(c) && yamaquasi::isprime64(c) {
+            fail("isprime64", format!("isprime64({c}) = true for a composite"));
+        }
+    }
+    for it in 0..iters {
+        let p = match it % 4 {
+            0 => rng.next() % 100000,
+            1 => (1u64 << 20) - 50 + rng.next() % 100,
+            2 => 2 * (rng.next() % 50000) + 1,
+            _ => rng.next() % (1 << 24),
+        };
+        let got = yamaquasi::isprime64(p);
+        if got != is_prime_td(p) {
+            fail("isprime64", format!("isprime64({p}) = {got}"));
+        }
+    }
+    // products of two primes near thresholds
+    for it in 0..(iters / 10) {
+        let a = 1000003 + 2 * (rng.next() % 1000);
+        let b = 1000003 + 2 * (rng.next() % 100000);
+        if is_prime_td(a) && is_prime_td(b) {
+            let n = a * b;
+            if yamaquasi::isprime64(n) {
+                fail("isprime64", format!("isprime64({n}) = true for {a}*{b}"));
+            }
+            let _ = it;
+        }
+    }
+}
+
+fn is_prime_td_big(n: u64) -> bool {
+    // Miller-Rabin with many bases through u128 arithmetic (independent of the crate)
+    if n < 4 {
+        return n >= 2;
+    }
+    if n % 2 == 0 {
+        return false;
+    }
+    let mulm = |a: u64, b: u64| ((a as u128 * b as u128) % n as u128) as u64;
+    let powm = |mut b: u64, mut e: u64| {
+        let mut r = 1u64;
+        while e > 0 {
+            if e & 1 == 1 {
+                r = mulm(r, b);
+            }
+            b = mulm(b, b);
+            e >>= 1;
+        }
+        r
+    };
+    let s = (n - 1).trailing_zeros();
+    let d = (n - 1) >> s;
+    for a in [2u64, 3, 5, 7, 11, 13, 17, 19, 23, 29, 31, 37, 41, 43, 47, 53] {
+        if a % n == 0 {
+            continue;
+        }
+        let mut x = powm(a % n, d);
+        if x == 1 || x == n - 1 {
+            continue;
+        }
+        let mut ok = false;
+        for _ in 1..s {
+            x = mulm(x, x);
+            if x == n - 1 {
+                ok = true;
+                break;
+            }
+        }
+        if !ok {
+            return false;
+        }
+    }
+    true
+}
+
+/// pseudoprime: never rejects a prime, evens, agreement with isprime64 on 64 bits
+fn pseudoprime(rng: &mut Rng, iters: u64) {
+    for it in 0..iters {
+        let p = match it % 3 {
+            0 => rng.next() % 1000000,
+            1 => rng.word(),
+            _ => rng.next(),
+        };
+        let r = catch_unwind(AssertUnwindSafe(|| yamaquasi::pseudoprime(Uint::from(p))));
+        match r {
+            Ok(got) => {
+                let want = if p % 2 == 0 { p == 2 } else { is_prime_td_big(p) };
+                if got != want {
+                    fail("pseudoprime", format!("pseudoprime({p}) = {got}"));
+                }
+            }
+            Err(_) => fail("pseudoprime", format!("pseudoprime({p}): panic")),
+        }
+    }
+    // known large primes (2^89-1, 2^107-1, 2^127-1) and composites (their products, Carmichael-like)
+    let m89 = (Uint::ONE << 89u32) - Uint::ONE;
+    let m107 = (Uint::ONE << 107u32) - Uint::ONE;
+    let m127 = (Uint::ONE << 127u32) - Uint::ONE;
+    for p in [m89, m107, m127] {
+        if !yamaquasi::pseudoprime(p) {
+            fail("pseudoprime", format!("pseudoprime({p}) = false for a prime"));
+        }
+    }
+    for c in [m89 * m107, m107 * m127, m89 * m89, (Uint::ONE << 100u32)] {
+        if yamaquasi::pseudoprime(c) {
+            fail("pseudoprime", format!("pseudoprime({c}) = true for a composite"));
+        }
+    }
+}
+
+pub fn run(case: &str, rng: &mut Rng, iters: u64) -> bool {
+    match case {
+        "isprime64" => isprime64(rng, iters),
+        "pseudoprime" => pseudoprime(rng, iters),
+        _ => return false,
+    }
+    true
 }
